@@ -165,6 +165,55 @@ class GGen:
         ss.append({"s": "print", "ty": ("int", 1, False), "x": {"e": "fld", "f": "b", "x": {
             "e": "call", "f": "pick", "cargs": [{"e": "type", "ty": {"w": 0, "s": False}, "text": "P"}],
             "args": [{"e": "bool", "v": r.random() < 0.5}, pl(), pl()]}}})
+        # generic functions whose body declares an enum that depends on a comptime parameter (its
+        # payload type / its discriminants): each instantiation has an enum of its own
+        var = lambda n: {"e": "var", "n": n}
+        blk = lambda ss_, tail=NONE: {"e": "blk", "label": "", "ss": ss_, "tail": tail}
+        OUT = ("enum", "Out", (("Win", "T"), ("Tie", None)))
+        win = lambda x: {"e": "variant", "k": 1, "x": x, "sty": OUT, "raw": True}
+        tie = {"e": "variant", "k": 2, "x": NONE, "sty": OUT, "raw": True}
+        fns.append({"name": "gsel", "cparams": [{"n": "T", "kind": "type"}], "params": [{"n": "a", "ty": "T"}, {"n": "b", "ty": "T"}], "ret": "T",
+                    "body": blk([
+                        {"s": "typedecl", "text": "Out :: enum { Win: T, Tie };"},
+                        {"s": "let", "n": "res", "ty": "Out", "mut": False, "noann": True, "x": {
+                            "e": "ifx", "c": {"e": "bin", "op": "gt", "l": var("a"), "r": var("b")}, "t": blk([], win(var("a"))),
+                            "f": blk([], {"e": "ifx", "c": {"e": "bin", "op": "gt", "l": var("b"), "r": var("a")},
+                                          "t": blk([], win(var("b"))), "f": blk([], tie)})}},
+                        {"s": "let", "n": "out", "ty": "T", "mut": True, "x": self.tlit()},
+                        {"s": "switch", "x": var("res"), "bind": "r", "sty": OUT, "dflt": NONE, "arms": [
+                            {"k": 1, "body": blk([{"s": "set", "l": {"l": "var", "n": "out"},
+                                                   "x": {"e": "cast", "ty": {"w": 0, "s": False}, "tyv": "T", "x": var("r")}}])},
+                            {"k": 2, "body": blk([{"s": "set", "l": {"l": "var", "n": "out"},
+                                                   "x": {"e": "bin", "op": "xor", "l": var("a"), "r": self.tlit()}}])}]}],
+                        var("out"))})
+        LV = ("enum", "Lv", (("Lo", None), ("Hi", None)))
+        fns.append({"name": "gcls", "cparams": [{"n": "B", "kind": "u8"}], "params": [{"n": "v", "ty": I32}, {"n": "th", "ty": I32}], "ret": I32,
+                    "body": blk([
+                        {"s": "typedecl", "text": "Lv :: enum { Lo | B, Hi };"},
+                        {"s": "let", "n": "lv", "ty": "Lv", "mut": False, "noann": True, "x": {
+                            "e": "ifx", "c": {"e": "bin", "op": "lt", "l": var("v"), "r": var("th")},
+                            "t": blk([], {"e": "variant", "k": 1, "x": NONE, "sty": LV, "raw": True}),
+                            "f": blk([], {"e": "variant", "k": 2, "x": NONE, "sty": LV, "raw": True})}},
+                        {"s": "let", "n": "out", "ty": I32, "mut": True, "x": self.conc_lit(I32)},
+                        {"s": "switch", "x": var("lv"), "bind": "w", "sty": LV, "arms": [
+                            {"k": 1, "body": blk([{"s": "set", "l": {"l": "var", "n": "out"}, "x": self.conc_lit(I32)}])}],
+                         "dflt": blk([{"s": "set", "l": {"l": "var", "n": "out"}, "x": self.conc_lit(I32)}])}],
+                        var("out"))})
+        sel_tys = r.sample(TYS, 3)
+        bases = r.sample([3, 10, 40, 100, 200, 250], 3)
+        more = []
+        for t in sel_tys:
+            for _ in range(r.randrange(1, 3)):
+                a, b2 = self.conc_lit(t), self.conc_lit(t)
+                more.append({"s": "print", "ty": t, "x": {"e": "call", "f": "gsel", "cargs": [{"e": "type", "ty": jty(t)}],
+                                                          "args": r.choice([[a, b2], [a, a], [b2, a]])}})
+        for bs in bases:
+            for _ in range(r.randrange(1, 3)):
+                more.append({"s": "print", "ty": I32, "x": {"e": "call", "f": "gcls",
+                                                            "cargs": [{"e": "int", "ty": {"w": 1, "s": False}, "b": [bs], "plain": True}],
+                                                            "args": [self.conc_lit(I32), self.conc_lit(I32)]}})
+        r.shuffle(more)
+        ss += more
         # every second program keeps its generic functions in an imported file
         if r.random() < 0.5:
             for f in fns:
@@ -182,7 +231,8 @@ def run(chk):
                        "bodies written for any integer type (arithmetic, literals T.(k), casts through concrete types, "
                        "loops bounded by the constant, nested generic calls passing the type on), 3-5 instantiations per "
                        "program called repeatedly and interleaved, a generic identity instantiated with an array and a "
-                       "struct, a generic choice instantiated with a distinct and a struct type, run-time parameters before "
+                       "struct, generics whose body declares an enum that depends on the comptime parameter (payload type / "
+                       "discriminants) with variants unified by if / else, a generic choice instantiated with a distinct and a struct type, run-time parameters before "
                        "the comptime ones, and (every second program) the generic functions kept in an imported file; executed and validated against CapySem.tla, which binds comptime arguments like parameters")
 
 
